@@ -1,0 +1,36 @@
+//go:build verif
+
+package core
+
+// VerifIndex is a deep copy of the internal state of a secondary index (diagnostics for the
+// /verif monitors, build tag "verif").
+type VerifIndex struct {
+	Hash       string
+	Range      string
+	Local      bool
+	Refs       map[string]string
+	SortedKeys []string
+}
+
+// VerifIndexes returns copies of the internal state of all secondary indexes.
+func (t *Table) VerifIndexes() map[string]VerifIndex {
+	out := map[string]VerifIndex{}
+
+	for name, i := range t.Indexes {
+		vi := VerifIndex{
+			Hash:       i.keySchema.HashKey,
+			Range:      i.keySchema.RangeKey,
+			Local:      i.typ == indexTypeLocal,
+			Refs:       map[string]string{},
+			SortedKeys: append([]string{}, i.sortedKeys...),
+		}
+
+		for k, v := range i.refs {
+			vi.Refs[k] = v
+		}
+
+		out[name] = vi
+	}
+
+	return out
+}
